@@ -55,7 +55,7 @@ impl DocGen {
         if t == ElementType::ROOT {
             return Some(n);
         }
-        let specs: Vec<(AttributeName, &'static CharacterDataSpec, bool)> = t.attribute_spec_iter().collect();
+        let specs: Vec<(AttributeName, &'static CharacterDataSpec, bool)> = crate::common::specgraph::attribute_specs(t).into_iter().collect();
         for (an, spec, required) in specs {
             let aspec = t.find_attribute_spec(an)?;
             if !self.v.compatible(aspec.version) {
@@ -155,7 +155,7 @@ impl DocGen {
                 let mut n = open.clone();
                 if j > 0 {
                     // later parent instances only carry required attributes
-                    let req: HashSet<String> = t.attribute_spec_iter().filter(|a| a.2).map(|a| a.0.to_str().to_string()).collect();
+                    let req: HashSet<String> = crate::common::specgraph::attribute_specs(t).into_iter().filter(|a| a.2).map(|a| a.0.to_str().to_string()).collect();
                     n.attrs.retain(|(a, _)| req.contains(a));
                 }
                 if named {
